@@ -199,6 +199,10 @@ pub struct World {
     outstanding_ops: u32,
     /// time of the last transport activity (bytes moved, write refused, server wrote)
     pub last_io_ms: u64,
+    /// number of non-greeting responses completely (and intact) read by the client endpoint
+    fully_read_count: usize,
+    /// index of the first response not yet completely read
+    next_unread: usize,
 }
 
 pub type Shared = Arc<Mutex<World>>;
@@ -262,6 +266,8 @@ impl World {
             probes: Default::default(),
             outstanding_ops: 0,
             last_io_ms: 0,
+            fully_read_count: 0,
+            next_unread: 0,
         }
     }
 
@@ -270,7 +276,7 @@ impl World {
     }
 
     pub fn log(&mut self, ev: Ev) -> u64 {
-        if self.log.len() > 400_000 {
+        if self.log.len() > 150_000 {
             // a run that produces this many transport events is spinning
             if std::env::var_os("VERIF_VERBOSE").is_some() {
                 for e in &self.log[self.log.len() - 40..] {
@@ -279,7 +285,7 @@ impl World {
                 eprintln!("  plan: {:?}", self.plan);
             }
             std::panic::panic_any(crate::wire::reader::BudgetExceeded(
-                "more than 400000 simulation events in one run (spin)".into(),
+                "more than 150000 simulation events in one run (spin)".into(),
             ));
         }
         self.seq += 1;
@@ -824,10 +830,7 @@ impl World {
     // ---- judge (client side of C05) ---------------------------------------------------------
 
     fn responses_fully_read(&self) -> usize {
-        self.responses
-            .iter()
-            .filter(|r| !matches!(r.kind, RespKind::Greeting) && r.end <= self.s2c_read && r.intact)
-            .count()
+        self.fully_read_count
     }
 
     fn judge_bytes(&mut self, bytes: &[u8], first_seq: u64) {
@@ -979,12 +982,18 @@ impl AsyncRead for ClientEndpoint {
             let seq_next = w.seq + 1;
             let mut completes = Vec::new();
             let read_to = w.s2c_read;
-            for r in w.responses.iter_mut() {
-                if r.fully_read_seq.is_none() && r.end <= read_to && r.end > s {
-                    r.fully_read_seq = Some(seq_next);
-                    completes.push(World::resp_kind_name(&r.kind));
-                } else if r.fully_read_seq.is_none() && r.end <= read_to && r.start == r.end {
-                    r.fully_read_seq = Some(seq_next);
+            // responses are ordered by offset: advance over those that are now completely read
+            while w.next_unread < w.responses.len() && w.responses[w.next_unread].end <= read_to {
+                let i = w.next_unread;
+                w.next_unread += 1;
+                if w.responses[i].fully_read_seq.is_none() {
+                    w.responses[i].fully_read_seq = Some(seq_next);
+                    if w.responses[i].end > w.responses[i].start {
+                        completes.push(World::resp_kind_name(&w.responses[i].kind));
+                    }
+                    if w.responses[i].intact && !matches!(w.responses[i].kind, RespKind::Greeting) {
+                        w.fully_read_count += 1;
+                    }
                 }
             }
             w.log(Ev::ClientRead {
